@@ -39,5 +39,10 @@ for d in sorted(glob.glob("seeded/C*")):
             entry["note"] = "no longer a violation on the current tree (see meta)"
         out["seeds"].append(entry)
         print(pid, suffix, "caught" if entry["caught"] else "NOT CAUGHT", {c: (r["exit"], r["violations"]) for c, r in entry["checks"].items()}, flush=True)
+if len(sys.argv) > 1 and os.path.exists("seeded/SUMMARY.json"):
+    # a partial run: merge into the stored summary (keyed by patch file)
+    old = json.load(open("seeded/SUMMARY.json"))
+    fresh = {e["patch"]: e for e in out["seeds"]}
+    out["seeds"] = [fresh.pop(e["patch"], e) for e in old.get("seeds", [])] + list(fresh.values())
 json.dump(out, open("seeded/SUMMARY.json", "w"), indent=1, ensure_ascii=False)
 subprocess.run(["python3", "-c", "import sys;sys.path.insert(0,'/verif/lib');import core;core.build_harness()"])
